@@ -28,7 +28,7 @@ static const int stopvals[12] = { -3, -2, -1, 11, 1, 2, 3, 256, 65536, -65536, I
 static uint64_t wk;             /* basic blocks of library code the last keyed operation executed (work variant only) */
 
 enum { O_RESIZE = 1, O_INSERT, O_FIND, O_ERASE, O_ERASE_NONMEMBER, O_REHASH, O_SHRINK, O_SWAP,
-       O_FOREACH, O_FOREACH_CONST, O_CLEAR, O_RANGE, O_SCAN };
+       O_FOREACH, O_FOREACH_CONST, O_CLEAR, O_RANGE, O_SCAN, O_CHURN };
 
 static const char *x_opname(int k)
 {
@@ -36,7 +36,7 @@ static const char *x_opname(int k)
     case O_RESIZE: return "resize"; case O_INSERT: return "insert"; case O_FIND: return "find";
     case O_ERASE: return "erase"; case O_ERASE_NONMEMBER: return "erase_nonmember"; case O_REHASH: return "rehash";
     case O_SHRINK: return "shrink_to_fit"; case O_SWAP: return "swap"; case O_FOREACH: return "foreach";
-    case O_FOREACH_CONST: return "foreach_const"; case O_CLEAR: return "clear"; case O_RANGE: return "range_sample"; case O_SCAN: return "range_scan";
+    case O_FOREACH_CONST: return "foreach_const"; case O_CLEAR: return "clear"; case O_RANGE: return "range_sample"; case O_SCAN: return "range_scan"; case O_CHURN: return "churn";
     }
     return "?";
 }
@@ -1013,6 +1013,25 @@ static void x_once(const plan_t *p)
             EVT("range", 0, 0, 0);
             break;
         }
+        case O_CHURN: {
+            /* the n-th repetition: a transient element is inserted and erased 254 ... 65 536 times in a row (on a table that
+             * may be in the middle of a rehash: the first repetitions then also finish it) */
+            static const unsigned reps[] = { 254, 255, 256, 65534, 65535, 65536 };
+            static struct xelem tr; unsigned n = reps[o->a[2] % 6], q; size_t key = (size_t)(o->a[1] % (uint64_t)(keys + 9));
+            if (!m->inited || p->mode == 17 || p->mode == 16) { EVT("skip", 0, 0, 0); break; }
+            tr.magic = EMAGIC; tr.tail = ~EMAGIC; tr.id = -7; tr.table = t; tr.nk = m->kind;
+            g_cur_ctx = n > 60000 ? "churn-2^16" : "churn-2^8";
+            g_inlib = 1;
+            for (q = 0; q < n; q++) { cstl_hash_insert(&tb[t], key, HND(&tr)); cstl_hash_erase(&tb[t], HND(&tr)); }
+            g_inlib = 0;
+            if (cstl_hash_size(&tb[t]) != (size_t)m->nlive) VIOL("churn", "after %u insert/erase cycles of a transient element the table reports size %zu, reference has %d", n, cstl_hash_size(&tb[t]), m->nlive);
+            PROBE(n > 60000 ? "churn_2^16" : "churn_2^8");
+            EVT("churn", t, n, key);
+            m->keyed = m->budget;       /* far more keyed operations than buckets: a pending rehash must be finished by now */
+            c19_refresh(t);
+            if (!m->builtin && !m->settled) VIOLP("C19", "completion_bound", "rehash still pending after %u keyed operations", 2 * n);
+            break;
+        }
         case O_SCAN: {
             /* C17 range clause over a complete slice of the 32-bit keys: 2^24 consecutive keys (slice a[1] of 256; the
              * batch's run index walks the slices, so 256 consecutive runs cover every key below 2^32) against a small
@@ -1179,7 +1198,7 @@ static void x_gen(prng_t *r, int mode, plan_t *p)
         } else if (x < 80) {
             gen_keyed(r, p, t, mode);
         } else if (x < 84) {
-            o = plan_add(p, O_REHASH); o->a[0] = t;
+            o = plan_add(p, (mode == 3 || mode == 4 || mode == 19) && prng_chance(r, 1, 25) ? O_CHURN : O_REHASH); o->a[0] = t; o->a[1] = prng_next(r) >> 16; o->a[2] = prng_below(r, 6);
         } else if (x < 88) {
             o = plan_add(p, O_SHRINK); o->a[0] = t;
             if (faults && prng_chance(r, 1, 3)) o->a[4] = 1;
